@@ -130,6 +130,24 @@ class Exec:
         """A message 'C<i>.<n>~!echo...' makes the handler send a reply to the same session before
         it returns; 'C<i>.<n>~!bye...' makes it call disconnect(sid).  The model records them like
         the corresponding application actions."""
+        if event == 'disconnect':
+            # (world option farewell) the disconnect handler sends a last message to the session
+            o = self.ord_of_sid(sid)
+            s = next((x for x in self.sessions if x.ord == o), None)
+            if s is None:
+                return []
+            from .aworld import HandlerCall
+            self.echo_n += 1
+            reply = 'S%d.%d~farewell' % (s.ord, 100000 + self.echo_n)
+            rec = HandlerCall('send', (sid, reply), self.now)
+            rec.sess = s
+            s.app_sent.append({'t': self.now, 'tag': find_tag(reply), 'data': reply, 'call': rec,
+                               'step': len(self.actions), 'target_state': None, 'settled': False,
+                               'after': set(x['tag'] for x in s.app_sent if x['call'].done),
+                               'upg_state': self.upg_state(s), 'in_handler': True,
+                               'from_disconnect_handler': True,
+                               'poll_pending': any(not q.done for q in s.polls)})
+            return [('send', reply, rec)]
         if event != 'message' or not isinstance(data, str):
             return []
         m = re.match(r'C(\d+)\.(\d+)~!(echo|bye)', data)
@@ -633,9 +651,10 @@ class Exec:
         else:
             conn = self.world.ws_open(q, headers=[('Host', 'localhost')])
         conn.role, conn.sess = 'upgrade', s
-        if any(a['conn'].accepted and not (a['conn'].done or a['conn'].peer_closed or
-                                           a['conn'].failed or a['conn'].server_closed)
-               and a['conn'] is not s.main_ws for a in s.upg_attempts):
+        if any(not a['conn'].done and not a['conn'].rejected and a['conn'] is not s.main_ws
+               for a in s.upg_attempts):
+            # (the server's handler for an earlier socket has not finished - even if the client
+            # has closed that socket already)
             s.multi_upg = True
         if not (a.get('stale_after') and s.upg is not None):
             s.upg = conn        # (stale_after: the new socket stays silent, the handshake that
